@@ -331,7 +331,13 @@ func (e *enc) unop(st *State, x *ssa.UnOp) {
 		}
 		addr := e.val(x.X)
 		e.nilCheck(x.X, addr, x.Pos())
-		v := e.loadValue(st, addr, x.Type())
+		ldst := st
+		if g, ok := x.X.(*ssa.Global); ok && e.p.immutableGlobal(g) && e.entry != nil {
+			// a package variable nothing but its package's init assigns (error sentinels, tables):
+			// it has the value it had on entry, whatever was called in between
+			ldst = e.entry
+		}
+		v := e.loadValue(ldst, addr, x.Type())
 		e.setVal(x, v)
 		e.assumeAll(e.facts(e.val(x), x.Type(), false))
 		// references found in the INITIAL heap are never this activation's own allocations
